@@ -4,7 +4,7 @@
        and the exported value is the mode's public chaining value;
    (3) encryptor and decryptor on corresponding data reach the same state (read off C02/C03). *)
 From BM Require Import BlockModes Spec BlockModes_proofs Spec_proofs Ints Ints_proofs Ctr Belt Stream Stream_proofs
-  Ctr_proofs Belt_proofs Resume_proofs.
+  Ctr_proofs Belt_proofs Resume_proofs Plumbing Outcome Buf_proofs.
 
 Theorem C09_resume_generic : forall (S : Type) (single : S -> cell -> S * cell) st a b,
   fold_cells single st (a ++ b) =
@@ -67,3 +67,23 @@ Theorem C09_belt : forall (C : cipher) s si n, ED_id C -> c_bs C = 16 -> (s < po
   snd (belt_gen_n C n (mkbelt s s)) = snd (belt_gen_n C n (mkbelt s si)).
 Proof. exact belt_resume. Qed.
 Print Assumptions C09_belt.
+
+(* buffered CFB: the exported (block, position) pair IS the object's state (get_state / from_state copy it),
+   so resuming at ANY byte position is: running on a ++ b = running on a, then on b from the state reached;
+   exported states always satisfy the invariant pos < bs, |block| = bs that this needs *)
+Theorem C09_buffered_cfb_resume : forall (C : cipher), (forall x, length x = c_bs C -> length (c_E C x) = c_bs C) -> 0 < c_bs C ->
+  forall set1 (iv : block) pos a b, length iv = c_bs C -> pos < c_bs C ->
+  buf_apply C set1 (iv, pos) (a ++ b) =
+  (do r <- buf_apply C set1 (iv, pos) a;
+   let '(st1, o1) := r in
+   do r2 <- buf_apply C set1 st1 b;
+   let '(st2, o2) := r2 in Ok (st2, o1 ++ o2)).
+Proof. exact buf_apply_app. Qed.
+Print Assumptions C09_buffered_cfb_resume.
+
+Theorem C09_buffered_cfb_state_inv : forall (C : cipher), (forall x, length x = c_bs C -> length (c_E C x) = c_bs C) -> 0 < c_bs C ->
+  forall set1 data (iv : block) pos, length iv = c_bs C -> pos < c_bs C ->
+  length (fst (fst (buf_bytes C set1 (iv, pos) data))) = c_bs C /\ snd (fst (buf_bytes C set1 (iv, pos) data)) < c_bs C /\
+  length (snd (buf_bytes C set1 (iv, pos) data)) = length data.
+Proof. exact buf_bytes_inv. Qed.
+Print Assumptions C09_buffered_cfb_state_inv.
